@@ -221,9 +221,18 @@ def same_value(a, b, goals, what):
             return False
         return all(same_value(x, y, goals, '%s[%d]' % (what, i)) for i, (x, y) in enumerate(zip(a, b)))
     if isinstance(a, dict) and isinstance(b, dict):
-        if set(a.keys()) != set(b.keys()):
+        from .values import SymKey
+        ka = [k for k in a if not isinstance(k, SymKey)]
+        kb = [k for k in b if not isinstance(k, SymKey)]
+        sa = [k for k in a if isinstance(k, SymKey)]
+        sb = [k for k in b if isinstance(k, SymKey)]
+        if set(ka) != set(kb) or len(sa) != len(sb):
             return False
-        return all(same_value(a[k], b[k], goals, '%s[%r]' % (what, k)) for k in a)
+        ok = all(same_value(a[k], b[k], goals, '%s[%r]' % (what, k)) for k in ka)
+        # symbolic keys: paired in insertion order; their equality is an obligation
+        for x, y in zip(sa, sb):
+            ok = ok and same_value(x.v, y.v, goals, '%s[key]' % what) and same_value(a[x], b[y], goals, '%s[symbolic key]' % what)
+        return ok
     if isinstance(a, NetIP) and isinstance(b, NetIP):
         return same_value((a.version, a.value, a.prefixlen), (b.version, b.value, b.prefixlen), goals, what)
     if isinstance(a, Opaque) or isinstance(b, Opaque):
